@@ -454,6 +454,29 @@ def run(R: Run):
         R.oracle(abs(Fraction(cc) - Fraction(a + b, 2)) <= Fraction(a + b, 2) * Fraction(1, 2**52), "center-big",
                  {"a": a, "b": b}, f"roi_center={cc!r}")
 
+    # --- roi_boundary (model of Model/C03, theorems of Props/C17Boundary): samples on the perimeter, corners
+    #     included, 4*(pts_per_side - 1) of them.  Exact stream: step (b - a)/(pps - 1) with pps - 1 a power of two
+    #     and small bounds, so that the float32 linspace of the code is exact
+    for _ in range(R.pick(600, 6000)):
+        pps = rng.choice([2, 2, 3, 5, 9, 17])
+        y0, x0 = rng.randint(0, 2000), rng.randint(0, 2000)
+        y1, x1 = y0 + rng.choice([0, 1, 2, 7, rng.randint(0, 3000)]), x0 + rng.choice([0, 1, 3, 8, rng.randint(0, 3000)])
+        res = []
+
+        def fb():
+            o = roi.roi_boundary((slice(y0, y1), slice(x0, x1)), pps)
+            res.append(o)
+            return list_s(o.tolist(), lambda p: f"{frac_s(float(p[0]))};{frac_s(float(p[1]))}")
+
+        R.corr(f"c17 bnd {y0} {y1} {x0} {x1} {pps}", fb, sig=f"bnd|pps={pps}")
+        if res:
+            pts_ = [(Fraction(float(a_)), Fraction(float(b_))) for a_, b_ in res[0].tolist()]
+            on_perim = all(x0 <= px <= x1 and y0 <= py <= y1 and (px in (x0, x1) or py in (y0, y1)) for px, py in pts_)
+            corners = {(x0, y0), (x1, y0), (x1, y1), (x0, y1)} <= set((int(px), int(py)) for px, py in pts_
+                                                                      if px.denominator == 1 and py.denominator == 1)
+            R.oracle(on_perim and corners and len(pts_) == 4 * (pps - 1), "boundary-not-perimeter-samples",
+                     {"roi": [y0, y1, x0, x1], "pps": pps}, f"{pts_[:12]}", sig=f"bnd|pps={pps}")
+
     # --- roi_from_points
     def pts_case(pts, ny, nx, pad, al, tag, spell=None):
         """spell: how the SAME mathematical input is spelled — dtype/layout/writeability of the point array,
